@@ -80,9 +80,12 @@ def main():
     if meta.get("patch_applies"):
         ra = sh(["git", "-C", "/repo", "apply", patch])
         try:
-            for p in PROPS:
-                r = sh([os.path.join(HERE, "check"), p, "--tier", "quick"],
-                       cwd=HERE)
+            from concurrent.futures import ThreadPoolExecutor
+            with ThreadPoolExecutor(max_workers=10) as ex:
+                outs = list(ex.map(
+                    lambda p: sh([os.path.join(HERE, "check"), p, "--tier",
+                                  "quick"], cwd=HERE), PROPS))
+            for p, r in zip(PROPS, outs):
                 viol = [l for l in r.stdout.splitlines()
                         if l.startswith("VIOLATION")]
                 rules = sorted({l.split(":", 1)[1].split("--")[0].strip()
@@ -102,8 +105,10 @@ def main():
     # -- 3. store ------------------------------------------------------
     out = os.path.join(HERE, "seeded", "{}-{}".format(args.prop, args.tag))
     os.makedirs(out, exist_ok=True)
-    shutil.copy(patch, os.path.join(out, "patch.diff"))
-    shutil.copy(demo, os.path.join(out, "demo.py"))
+    for srcf, name in ((patch, "patch.diff"), (demo, "demo.py")):
+        dst = os.path.join(out, name)
+        if os.path.abspath(srcf) != os.path.abspath(dst):
+            shutil.copy(srcf, dst)
     with open(os.path.join(out, "meta.json"), "w") as fh:
         json.dump(meta, fh, indent=1)
     print(json.dumps({k: meta[k] for k in (
